@@ -34,7 +34,10 @@ CfgOf(a) ==
       sized |-> { a.comps[i].id : i \in { j \in DOMAIN a.comps : a.comps[j].sized } },
       nres  |-> a.nres,
       totalBits |-> a.totalBits,
-      lst   |-> [on |-> a.listener, S |-> a.ls, C |-> Range(a.lc), hasC |-> a.lhasc] ]
+      lst   |-> [on |-> a.listener, S |-> a.ls, C |-> Range(a.lc), hasC |-> a.lhasc],
+      isDispatch |-> a.isDispatch,
+      subs  |-> [i \in DOMAIN a.dispatch |-> [on |-> TRUE, S |-> a.dispatch[i].s, C |-> Range(a.dispatch[i].c),
+                                               hasC |-> a.dispatch[i].hasc]] ]
 
 PoolOf(lp) == [ents |-> lp.ents, next |-> lp.next, avail |-> lp.avail]
 
@@ -136,11 +139,17 @@ FactsOK(wPre, wPost, ev) ==
          /\ ev.tgtNow = wPost.tgt[ev.e]
 
 EventChecks(wPre, wPost, logged, cores) ==
-    LET exp == Delivered(wPost, cores)
-        got == { NormEv(logged[i]) : i \in DOMAIN logged }
-        full == wPost.cfg.lst.on /\ wPost.cfg.lst.S = 63 /\ ~wPost.cfg.lst.hasC
+    LET cfg == wPost.cfg
+        full == cfg.lst.on /\ cfg.lst.S = 63 /\ ~cfg.lst.hasC /\ ~cfg.isDispatch
         pc == IF full THEN "C11" ELSE "C12"
-    IN << Chk(pc, "events-exactly-the-expected", got = exp /\ Len(logged) = Cardinality(exp)),
+        lsts == IF cfg.isDispatch THEN cfg.subs ELSE << cfg.lst >>
+        got(k) == { NormEv(logged[i]) : i \in { j \in DOMAIN logged : logged[j].sub = k - 1 } }
+        cnt(k) == Cardinality({ j \in DOMAIN logged : logged[j].sub = k - 1 })
+        exp(k) == IF cfg.isDispatch THEN { ev \in cores : DispatchDelivers(cfg.subs, k, ev) }
+                  ELSE DeliveredTo(lsts[k], cores)
+    IN << Chk(pc, "events-exactly-the-expected",
+              /\ \A k \in DOMAIN lsts : got(k) = exp(k) /\ cnt(k) = Cardinality(exp(k))
+              /\ \A i \in DOMAIN logged : logged[i].sub + 1 \in DOMAIN lsts),
           Chk("C11", "events-delivery-state", \A i \in DOMAIN logged : FactsOK(wPre, wPost, logged[i])),
           Chk("C09", "locked-during-delivery-rejects-changes",
               \A i \in DOMAIN logged : logged[i].probe # "ok"),
@@ -468,8 +477,14 @@ EvResGet(ln, w) ==
               ELSE IF present THEN ln.res.ret = w.res[r] /\ ln.same ELSE ln.res.ret = -1
     IN Res(w, OutcomeChecks(ln, "") \o << Chk("C20", "resource-read", ln.res.panic \/ ok) >>, {})
 
+EvAddListener(ln, w) ==
+    LET a == ln.args
+        w1 == [w EXCEPT !.cfg.subs = Append(@, [on |-> TRUE, S |-> a.s, C |-> Range(a.c), hasC |-> a.hasc])]
+    IN Res(IF ln.res.panic THEN w ELSE w1, << Chk("C12", "legal-operation-panicked", ~ln.res.panic) >>, {})
+
 Eval(ln, w) ==
     CASE ln.op = "NewWorld" -> EvNewWorld(ln, w)
+      [] ln.op = "AddListener" -> EvAddListener(ln, w)
       [] ln.op = "ResGet" -> EvResGet(ln, w)
       [] ln.op = "Dump" -> EvDump(ln, w)
       [] ln.op = "Load" -> EvLoad(ln, w)
@@ -510,7 +525,7 @@ AllChecks(ln, w, r) ==
              \o (IF ln.op = "NewWorld" THEN <<>> ELSE EventChecks(w, r.g, ln.events, r.evs))
 
 EmptyCfg == [comps |-> {}, rels |-> {}, sized |-> {}, nres |-> 0, totalBits |-> 256,
-             lst |-> [on |-> FALSE, S |-> 0, C |-> {}, hasC |-> FALSE]]
+             lst |-> [on |-> FALSE, S |-> 0, C |-> {}, hasC |-> FALSE], isDispatch |-> FALSE, subs |-> <<>>]
 
 Init ==
     /\ l = 1
